@@ -109,6 +109,11 @@ inductive ColCopy where
   | shallow  -- `copy(...)` of the pair: the dict inside is shared with the class derived from
   deriving DecidableEq, Repr
 
+inductive PatRule where
+  | always          -- setting `pattern` (re)compiles `_pattern_re`                                   (good)
+  | onlyWhenUnset   -- ... only when no compiled pattern is inherited: a re-derived pattern keeps the old regex
+  deriving DecidableEq, Repr
+
 inductive MslRule where
   | followsRequested   -- max_str_len = total_digits + 2 only when total_digits is requested, else inherited (good)
   | resetsFromParent   -- every customisation of a number resets it to the *parent's* total_digits + 2 (defect)
@@ -128,6 +133,9 @@ structure BaseDef where
 structure Facts15 where
   mandRule : MandRule
   varRule : VarRule
+  /-- the same for a class statement that declares its own `class Attributes(Base.Attributes)` -/
+  varRuleX : VarRule
+  patRule : PatRule
   mslRule : MslRule
   colCopy : ColCopy
   /-- class namespaces / `dict(odict)` enumerate in insertion order (CPython >= 3.7) -/
